@@ -65,9 +65,14 @@ Fixpoint norm_from (st : path) (segs : list seg) : path :=
 Definition dirname (p : path) : path := removelast p.
 
 (* ---- file system ---- *)
-Definition fsys := list (path * bool).      (* (path, is a regular file) *)
+(* what sits at a path: a regular file, a directory, or something else that exists but is neither (FIFO, unix
+   socket, symbolic link to a directory): os.path.isfile is False for it, os.remove removes it, shutil.rmtree raises *)
+Inductive fkind := KFile | KDir | KOther.
+Definition fkind_eqb (a b : fkind) : bool :=
+  match a, b with KFile, KFile | KDir, KDir | KOther, KOther => true | _, _ => false end.
+Definition fsys := list (path * fkind).
 
-Fixpoint lookup (fs : fsys) (p : path) : option bool :=
+Fixpoint lookup (fs : fsys) (p : path) : option fkind :=
   match fs with
   | [] => None
   | (q, k) :: fs' => if path_eqb q p then Some k else lookup fs' p
@@ -76,9 +81,9 @@ Fixpoint lookup (fs : fsys) (p : path) : option bool :=
 Definition exists_ (fs : fsys) (p : path) : bool :=
   match p with [] => true | _ => match lookup fs p with Some _ => true | None => false end end.
 Definition isfile (fs : fsys) (p : path) : bool :=
-  match lookup fs p with Some true => true | _ => false end.
+  match lookup fs p with Some KFile => true | _ => false end.
 Definition isdir (fs : fsys) (p : path) : bool :=
-  match p with [] => true | _ => match lookup fs p with Some false => true | _ => false end end.
+  match p with [] => true | _ => match lookup fs p with Some KDir => true | _ => false end end.
 
 Fixpoint is_prefix (a b : path) : bool :=
   match a, b with
@@ -93,9 +98,9 @@ Definition eff_path (e : eff) : path :=
 
 Record world := { w_fs : fsys; w_log : list eff }.
 Definition do_mkdir (w : world) (p : path) : world :=
-  {| w_fs := w_fs w ++ [(p, false)]; w_log := w_log w ++ [MkDir p] |}.
+  {| w_fs := w_fs w ++ [(p, KDir)]; w_log := w_log w ++ [MkDir p] |}.
 Definition do_mkfile (w : world) (p : path) : world :=
-  {| w_fs := w_fs w ++ [(p, true)]; w_log := w_log w ++ [MkFile p] |}.
+  {| w_fs := w_fs w ++ [(p, KFile)]; w_log := w_log w ++ [MkFile p] |}.
 Definition do_rmtree (w : world) (p : path) : world :=
   {| w_fs := filter (fun e => negb (is_prefix p (fst e))) (w_fs w); w_log := w_log w ++ [RmTree p] |}.
 Definition do_remove (w : world) (p : path) : world :=
@@ -130,8 +135,8 @@ Definition ocfn (w : world) (p : path) : res world :=
   | [] => Exc OSErr
   | _ =>
     match lookup (w_fs w) p with
-    | Some true => Ok w
-    | Some false => Exc OSErr
+    | Some KFile => Ok w
+    | Some _ => Exc OSErr
     | None => if isdir (w_fs w) (dirname p) then Ok (do_mkfile w p) else Exc OSErr
     end
   end.
@@ -204,17 +209,24 @@ Definition remake (c : config) (w : world) : res path * world :=
         match ocfn w1 p with Ok w2 => (Ok p, w2) | Exc k => (Exc k, w1) end
       else (Ok p, w1).
 
-(* Filer._clearPath for .path = p *)
-Definition clear (c : config) (p : path) (w : world) : res unit * world :=
-  let r :=
-    if exists_ (w_fs w) p then
-      if isfile (w_fs w) p then
+(* Filer._clearPath for .path = p: first the end of the path ... *)
+Definition clear_end (c : config) (p : path) (w : world) : res world :=
+  if exists_ (w_fs w) p then
+    if isfile (w_fs w) p then
+      let w1 := do_remove w p in
+      Ok (if c_temp c then do_rmtree w1 (dirname p) else w1)
+    else if c_ext c then
+      if isdir (w_fs w) p then Exc OSErr    (* os.remove of a directory *)
+      else                                  (* a FIFO / socket / symlink end: os.remove removes exactly it *)
         let w1 := do_remove w p in
         Ok (if c_temp c then do_rmtree w1 (dirname p) else w1)
-      else if c_ext c then Exc OSErr        (* os.remove of a directory *)
-      else Ok (do_rmtree w p)
-    else Ok w in
-  match r with
+    else if isdir (w_fs w) p then Ok (do_rmtree w p)
+    else Exc OSErr                          (* shutil.rmtree of something that is not a directory *)
+  else Ok w.
+
+(* ... then, for a temp Filer, the mkdtemp directory the path lies in *)
+Definition clear (c : config) (p : path) (w : world) : res unit * world :=
+  match clear_end c p w with
   | Exc k => (Exc k, w)
   | Ok w1 =>
     if c_temp c && is_prefix (c_tmp c) p && isdir (w_fs w1) (c_tmp c)
@@ -357,7 +369,7 @@ Record case := { k_cfg : config;
                  k_hops : list hop2;                (* history after the constructor (then no owner/clear phase) *)
                  k_hobs : list (res unit * option path * bool * fsys) }.   (* result, .path, .temp, snapshot after every call *)
 
-Definition entry_eqb (a b : path * bool) : bool := path_eqb (fst a) (fst b) && Bool.eqb (snd a) (snd b).
+Definition entry_eqb (a b : path * fkind) : bool := path_eqb (fst a) (fst b) && fkind_eqb (snd a) (snd b).
 Definition subset_fs (a b : fsys) : bool := forallb (fun e => existsb (entry_eqb e) b) a.
 Definition same_fs (a b : fsys) : bool := subset_fs a b && subset_fs b a.
 
@@ -366,6 +378,7 @@ Definition owner_step (n : nat) (p : path) (w : world) : world :=
   else match n with
        | 1 => do_mkfile w p
        | 2 => do_mkdir w p
+       | 3 => {| w_fs := w_fs w ++ [(p, KOther)]; w_log := w_log w |}   (* mkfifo / bound unix socket / symlink to a directory *)
        | _ => w
        end.
 
